@@ -153,6 +153,7 @@ def handle : List String → String
     | none => "bad-op"
   | ["keys", script] => keysObs script
   | ["scan", seed] => if seed.toNat?.isSome then "ok" else "bad-op"
+  | ["hist", seed] => if seed.toNat?.isSome then "ok" else "bad-op"
   | ["tamper", seed] => if seed.toNat?.isSome then "ok" else "bad-op"
   | ["swap", "snapshot", seed] => if seed.toNat?.isSome then "undetected" else "bad-op"
   | _ => "bad-op"
